@@ -13,6 +13,7 @@ RULE = ("placed scenes (8x6x8 / 7x6x9 cells, background block so that the etch b
         "overlapping): continuous (2 materials), discrete (ClosestIndex, 2-4 materials), etched; isotropic and diagonal materials, dict order "
         "shuffled; voxels of 1-3 cells; histories of 1-3 random parameter sets. The Qc model run on the whole history must reproduce the final "
         "inverse-permittivity array (1e-9 relative); predicate: per-cell formula, range, cells outside unchanged, history == last. "
+        "dispersive tier: device materials with 0-2 Lorentz poles half inside a 1-2 pole background block, every pole slot of c1..c3 compared per cell. "
         "non-trivial = history of >= 2 sets")
 EXHAUSTIVE = {"quick": False, "thorough": False}
 ASSUMPTIONS = ["the transform chain's output on the design grid is an input of the model (oracle: device(params, expand_to_sim_grid=False)); transforms are C19-C25",
@@ -88,8 +89,25 @@ def gen_case9(rng, i):
     return c
 
 
+POLES = [[2.0e15, 1.0e13, 1.5], [3.1e15, 2.0e13, 0.7], [2.6e15, 3.0e13, 0.9]]
+
+
+def gen_case_disp(rng, i):
+    """dispersive tier: a device (discrete / continuous) whose materials carry 0 .. 2 Lorentz poles, half inside a dispersive background block
+    with 1 or 2 poles (so the simulation-wide pole axis can be longer than the device's own)"""
+    shape = [8, 6, 8]
+    kind = ["disc", "cont", "disc"][i % 3]
+    d = gen_device(rng, shape, kind, False)
+    npole = [rng.choice([0, 1]) for _ in d["mats"]] if i % 2 == 0 else [rng.choice([0, 1, 2]) for _ in d["mats"]]
+    d["poles"] = [[list(POLES[(j + q) % 3]) for q in range(n)] for j, n in enumerate(npole)]
+    cut = max(d["box"][0][0] + 1, 3)
+    bg = {"box": [[0, cut], [0, shape[1]], [0, shape[2]]], "eps": rng.choice(EPS), "poles": [list(POLES[0]), list(POLES[1])][:(2 if i % 2 == 0 else rng.choice([1, 2]))]}
+    return {"shape": shape, "vol_eps": 1.0, "bg": bg, "devices": [d], "hist": [[rng.randint(0, 10**6)] for _ in range(2)], "disp": True}
+
+
 def gen_cases(ctx):
-    return [gen_case(ctx.rng, i) for i in range(ctx.pick(8, 60))] + [gen_case9(ctx.rng, i) for i in range(ctx.pick(3, 12))]
+    return ([gen_case(ctx.rng, i) for i in range(ctx.pick(8, 60))] + [gen_case9(ctx.rng, i) for i in range(ctx.pick(3, 12))]
+            + [gen_case_disp(ctx.rng, i) for i in range(ctx.pick(3, 12))])
 
 
 def run_cases(ctx, cases):
@@ -234,7 +252,51 @@ def predicate(case, out):
                             return ("range-" + key, f"cell {(x, y, z)} comp {k}: {g} outside [{lo}, {hi}]")
     if out.get("other_changed", 0.0) != 0.0:
         return ("permeability-" + key, "inverse permeabilities changed by apply_params")
+    if case.get("disp"):
+        return predicate_disp(case, out, key)
     return None
+
+
+def predicate_disp(case, out, key):
+    """dispersion coefficient stacks: inside a device every pole slot holds the row of the selected device material (zero beyond its own poles;
+    continuous devices: the linear blend of the two rows), outside nothing changes, histories do not matter"""
+    D = out.get("disp")
+    if D is None:
+        return ("disp-missing-" + key, "the scene contains dispersive materials but the container has no dispersion coefficient arrays")
+    if D["comp_len"] != 1:
+        return None
+    nx, ny, nz = case["shape"]
+    A = lambda t: np.asarray(_unhex(t), dtype=np.float64)
+    base, fin, last = [A(t) for t in D["base"]], [A(t) for t in D["final"]], [A(t) for t in D["last"]]
+    exp = [b.copy() for b in base]
+    inside = np.zeros((nx, ny, nz), dtype=bool)
+    for d, b, p, tab in zip(devs_of(case, out), out["boxes"], out["pout"][-1], D["tables"]):
+        order = sorted(range(len(d["mats"])), key=lambda j: first(d["mats"][j]))
+        rows = [A(tab[j]) for j in order]                     # (3, npoles) per material, ascending permittivity
+        vx, vy, vz = d["voxel"]
+        for x in range(b[0][0], b[0][1]):
+            for y in range(b[1][0], b[1][1]):
+                for z in range(b[2][0], b[2][1]):
+                    v = F(p[(x - b[0][0]) // vx][(y - b[1][0]) // vy][(z - b[2][0]) // vz])
+                    inside[x, y, z] = True
+                    for q in range(3):
+                        exp[q][:, x, y, z] = rows[int(v)][q] if d["kind"] == "disc" else (1.0 - v) * rows[0][q] + v * rows[1][q]
+    for q, nm in enumerate(("c1", "c2", "c3")):
+        sc = max(float(np.abs(exp[q]).max()), float(np.abs(base[q]).max()), 1e-300)
+        out_changed = np.argwhere((fin[q] != base[q]) & ~inside[None])
+        if len(out_changed):
+            return ("disp-outside-" + key, f"dispersive_{nm}: cell {tuple(int(t) for t in out_changed[0][1:])} pole {int(out_changed[0][0])} lies outside every device but changed")
+        bad = np.argwhere(np.abs(fin[q] - exp[q]) > 1e-9 * sc)
+        if len(bad):
+            pz, x, y, z = (int(t) for t in bad[0])
+            return ("disp-value-" + key, f"dispersive_{nm}: cell {(x, y, z)} pole slot {pz} holds {fin[q][pz, x, y, z]!r}, the selected device material gives {exp[q][pz, x, y, z]!r}")
+        if np.any(fin[q] != last[q]):
+            return ("disp-history-" + key, f"dispersive_{nm} after the history differs from applying only the last set")
+    return None
+
+
+def _unhex(x):
+    return [_unhex(v) for v in x] if isinstance(x, list) else F(x)
 
 
 def show_model(case, out):
@@ -246,7 +308,7 @@ def nontrivial(case, out):
 
 
 def classify(case, out):
-    return "+".join(d["kind"] for d in case["devices"]) + f"/{out.get('ncomp', '?')}comp" + ("/backup" if out.get("has_backup") else "")
+    return "+".join(d["kind"] for d in case["devices"]) + ("/dispersive" if case.get("disp") else "") + f"/{out.get('ncomp', '?')}comp" + ("/backup" if out.get("has_backup") else "")
 
 
 def search(ctx, broken):
@@ -266,6 +328,7 @@ LEVEL_TEXT = ("Theorems (any field, any devices incl. overlapping ones, abstract
               "containing it: inverse of the linear blend (continuous), inverse permittivity of the selected material (discrete), etch blend with the "
               "background; dispersive stacks blend/lookup; cells outside all devices unchanged; any history ++ [ps] == ps alone (etching via the backup); "
               "ordered-field range 1/e1 <= 1/(e0+p(e1-e0)) <= 1/e0. Tie: Qc model of the whole history vs apply_params on placed scenes.")
-LEVEL_NOTE = ("Partial tie: dispersive coefficient stacks and 9-component tensors are proved on the model but not executed against the implementation; "
+LEVEL_NOTE = ("Partial tie: dispersive coefficient stacks and 9-component tensors are proved on the model; against the implementation they are checked by the per-cell predicate "
+              "(9-component inverses; c1..c3 pole stacks of devices over a dispersive background with a longer pole axis), not by executing the model; "
               "physical (non-uniform grid) design-voxel resampling is not modelled. Transform outputs are oracle inputs.")
 TECHNIQUE = "Coq proof (induction over the device list / history, field + ordered-field reasoning) + differential runs of apply_params"
